@@ -381,3 +381,6 @@ def check_one(case):
         viol.append((f"namespaces-differ:{g}", ""))
     mixed, spaced = features(ta)
     return {"outcome": "ok", "nt": (mixed or spaced or "itext" in a.xform) and not viol, "viol": viol, "tr": ntr}
+
+# as-built additions of the seventh wave (reported with the bound in the evidence)
+BOUND = {k: v + "; seventh wave: " + 'the frozen corpus in both print modes' for k, v in BOUND.items()}
